@@ -171,11 +171,11 @@ def _one(args):
                 # losing instances is also a detection (exit 2, never a silent pass)
                 if m["kind"] == "break":
                     return (m["name"], "caught", "ANALYSIS-ERROR: %s" % e)
-                return (m["name"], "false-alarm", "ANALYSIS-ERROR on a benign rewrite: %s" % e)
+                return (m["name"], "refused", "ANALYSIS-ERROR (exit 2, no alarm) on a benign rewrite: %s" % e)
         except core.AnalysisError as e:
             if m["kind"] == "break":
                 return (m["name"], "caught", "ANALYSIS-ERROR: %s" % e)
-            return (m["name"], "false-alarm", "ANALYSIS-ERROR on a benign rewrite: %s" % e)
+            return (m["name"], "refused", "ANALYSIS-ERROR (exit 2, no alarm) on a benign rewrite: %s" % e)
         new = [f for f in res.findings if f.key not in base_keys]
         if m["kind"] == "break":
             want = m.get("rule")
@@ -211,11 +211,11 @@ def run(pid, repo, base_res, jobs=None):
     else:
         results = [_one(a) for a in args]
     failures = []
-    summary = {"mutants": len(muts), "seeded": n_seeded, "caught": 0, "silent": 0, "stale": 0, "missed": 0, "false-alarm": 0, "error": 0, "details": []}
+    summary = {"mutants": len(muts), "seeded": n_seeded, "caught": 0, "silent": 0, "stale": 0, "missed": 0, "false-alarm": 0, "refused": 0, "error": 0, "details": []}
     for name, status, info in results:
         summary[status] = summary.get(status, 0) + 1
         summary["details"].append({"mutant": name, "status": status, "info": info})
-        if status in ("missed", "false-alarm", "error"):
+        if status in ("missed", "false-alarm", "refused", "error"):
             failures.append("%s: %s %s" % (name, status, info))
     summary["wall_s"] = round(time.time() - t0, 2)
     return summary, failures
